@@ -193,7 +193,34 @@ def run(ctx):
                 pws.append(base[:k] + rng.choice(NONTAME) + base[k:])
             dist['nontame_lists'] += 1
         mw, _ = train_util.first_pass(pws)
-        pre = ['dt.new'] + cd.uenv_ops(pws) + cd.mw_ops(mw)
+        uo = cd.uenv_ops(pws)
+        # the multi-word table itself: the model is trained on the same history and must end with the real trie's counts ...
+        tr = ['dt.new'] + uo + [f"dt.cfg {mw.threshold} {mw.min_len} {mw.max_len}", 'dt.mwclear'] + [f"dt.train {cd.cps(p)} 0" for p in pws if p]
+        ops += tr
+        exp += ['ok'] * len(tr)
+        real_tbl = {}
+        for o in cd.mw_ops(mw)[1:]:
+            _, w_, n_ = o.split(' ')
+            real_tbl[w_] = int(n_)
+        ops.append('dt.mwdump')
+        exp.append(' '.join(['mw'] + sorted(f"{w_}={n_}" for w_, n_ in real_tbl.items())))
+        # ... and, independently of both: a word's count is the number of times it occurred as a maximal letter run
+        indep = Counter()
+        for p in pws:
+            if mw.min_len <= len(p) <= mw.max_len:
+                run = ''
+                for ch in p.lower() + '\0':
+                    if ch.isalpha():
+                        run += ch
+                    else:
+                        if len(run) >= mw.min_len:
+                            indep[cd.cps(run)] += 1
+                        run = ''
+        if dict(indep) != real_tbl:
+            diff = [(k, indep.get(k, 0), real_tbl.get(k, 0)) for k in set(indep) | set(real_tbl) if indep.get(k, 0) != real_tbl.get(k, 0)][:4]
+            viol.append({'property': 'C05', 'kind': 'multiword-count', 'detail': str([(''.join(chr(int(x)) for x in k.split('.')), a, b) for k, a, b in diff]),
+                         'witness': {'list': pws}})
+        pre = ['dt.new'] + uo + cd.mw_ops(mw)
         ops += pre
         exp += ['ok'] * len(pre)
         all_secs, infos, parsed_pws = [], [], []
